@@ -105,6 +105,10 @@ def parse_results(path, unit_file_names):
         cls = classify(r['property'], r.get('description', ''))
         if cls == 'instrumentation':
             own = False
+        # safety obligations raised inside the specification text (contract clauses, spec functions,
+        # harness) are well-formedness conditions of the spec, not properties of the repo code
+        if own and cls in SAFETY_CLASSES and not ('/src/' in f):
+            cls = 'spec-wellformed'
         ob = {'name': r['property'], 'class': cls, 'description': r.get('description', ''),
               'file': f, 'line': int(loc['line']) if loc.get('line') else None, 'function': loc.get('function'),
               'status': r['status'], 'own': own}
